@@ -34,7 +34,16 @@ def main():
         return orig(x)
 
     model.log_likelihood = ll
-    fs.run(plot=False, save=True)
+    # the invariant monitors of C01 / C03 run inside this process too (a resumed process may restore
+    # state in an order that depends on its own hash seed)
+    from mc.monitors import StdMonitor
+
+    mon = StdMonitor() if kind == "std" else runs.InsMonitor()
+    if kind == "ins" and fs.ns.iteration > 0:
+        mon.rederived = not kw.get("save_log_q", False)
+    with mon.installed():
+        fs.run(plot=False, save=True)
+    print("MONITOR", json.dumps([[str(c), str(d)[:300]] for c, d in mon.errs[:3]]), flush=True)
     print("CALLS", calls[0], flush=True)
     os._exit(0)
 
